@@ -397,6 +397,15 @@ def replay(mod, path):
     want = fp_key(doc["violation"]["fingerprint"])
     os.environ["VERIF_SCRATCH_ROOT"] = scratch_root()
     try:
+        # the address-space cap the pool workers of this check run under is part of the simulated machine
+        cap = mod.plan(doc.get("tier") or "quick").get("rlimit_as")
+        if cap:
+            import resource
+
+            resource.setrlimit(resource.RLIMIT_AS, (cap, cap))
+    except Exception:
+        pass
+    try:
         r = mod.run_case(case)
     finally:
         shutil.rmtree(scratch_root(), ignore_errors=True)
